@@ -17,11 +17,26 @@ type StepResult struct {
 // StepBlock produces the block of `slot` per plan from the reference state, applies it to the
 // reference and (through bytes) to zrnt with validateResult=true, and compares the post-states.
 func (n *Node) StepBlock(ctx context.Context, slot uint64, pl *Plan) StepResult {
+	return n.StepBlockMode(ctx, slot, pl, false)
+}
+
+// StepBlockMode: with perSlot the slots up to the block's slot are processed one by one on both
+// sides and compared after EACH slot (C02); the block is then applied to the slot-processed state.
+func (n *Node) StepBlockMode(ctx context.Context, slot uint64, pl *Plan, perSlot bool) StepResult {
 	sb, post, deposits, err := n.Produce(slot, pl)
 	if err != nil {
 		return StepResult{Skipped: true, Mismatch: err.Error()}
 	}
-	rerr, pm := n.ApplyReal(ctx, sb, true)
+	var rerr error
+	var pm string
+	if perSlot {
+		if r := n.StepSlots(ctx, slot); r.Mismatch != "" {
+			return r
+		}
+		rerr, pm = n.ApplyRealPostSlots(ctx, sb, true)
+	} else {
+		rerr, pm = n.ApplyReal(ctx, sb, true)
+	}
 	n.Ref = post
 	n.Deposits = deposits
 	if pm != "" {
